@@ -70,8 +70,10 @@ probes! {
     P_LOOP_BODY_PANIC = 37, "for-loop body panicked (iterator survives, history continues)";
     P_CONTAINER_CLONE = 38, "vector / matrix cloned (Clone on the container), clone dropped";
     P_CLONE_PANIC_FIRED = 39, "panic inside an element's clone() while cloning a container";
+    P_SWAP_TWIN = 40, "iterator swapped with the twin iterator (both change address)";
+    P_DEFAULT_PROBE_ACTIVE = 41, "Default probe found IntoIter<Tok>: Default";
 }
-pub const N_PROBES: usize = 40;
+pub const N_PROBES: usize = 42;
 
 pub const N_OPK: usize = 80;
 
